@@ -160,12 +160,18 @@ def s3(ctx, rep):
     if len(stores) != 1:
         raise AnchorError("_run_job_and_collect_results: store of the per-trial seed not found")
     st = stores[0]
-    sv = U(st.ast.value)
     from .c01 import _dom_atoms
+    # the seed variable: what the table is queried with
+    q0 = [x for x in walk_shallow(f.node) if isinstance(x, ast.Call) and fn_name(x) == "config_objectives"]
+    sv = U(kwarg(q0[0], "seed", 1)) if len(q0) == 1 and kwarg(q0[0], "seed", 1) is not None else U(st.ast.value)
     at = _dom_atoms(cfg, st.id)
-    ok = ("is", sv, "None", True) in at
     ds = [d for d in local_defs(f, sv) if not isinstance(d, tuple)]
+    # stored only when none is stored yet: under `<seed fetched with .get> is None`, or under `trial_id not in <table>`
+    ok = ("is", sv, "None", True) in at and U(st.ast.value) == sv
     from_get = any(isinstance(d, ast.Call) and fn_name(d) == "get" and attr in U(d.func.value) for d in ds)
+    absent = any(a[0] == "in" and a[3] is False and a[2] == "self." + attr and a[1] == U(st.ast.targets[0].slice) for a in at) and \
+        any(isinstance(d, ast.Subscript) and U(d.value) == "self." + attr and U(d.slice) == U(st.ast.targets[0].slice) for d in ds)
+    ok, from_get = (ok and from_get) or absent, True
     rep.put(ok and from_get, "S3", "guarded_by", "_BlackboxSimulatorBackend: the per-trial seed is stored only when none is stored yet (is None)", f, st.ast,
             f"seed = self.{attr}.get(trial_id); stored under `seed is None`",
             "the stored per-trial seed can be replaced (the guard is not `<stored seed> is None`, e.g. a truthiness test that treats "
